@@ -26,7 +26,7 @@ from ..gen import dlis as GD, dlislog as GL, bit as GB, lis as GLP
 from . import c04, c06, c10, c13
 
 LEVEL = 'model_checking'
-NOX = -1000000
+NOX = -987654321          # "no number" in the projected events (far from anything a generated file holds)
 
 
 def _prod(d):
@@ -48,14 +48,15 @@ def build_dlis(rng):
             nch = rng.choice([1, 2, 3, 5])
             chs = []
             for c in range(nch):
-                rc = rng.choice([2, 7]) if c == 0 else rng.choice([2, 7, 12, 13, 14, 15, 16, 17, 5, 6])
+                # the index channel: a float, or an integer (a depth in mm as ULONG, a counter as UNORM): either may run up or down
+                rc = rng.choice([2, 7, 2, 7, 14, 16, 17, 13]) if c == 0 else rng.choice([2, 7, 12, 13, 14, 15, 16, 17, 5, 6])
                 dims = [1] if c == 0 else rng.choice([[1], [1], [2], [3], [2, 2]])
                 name = xnames[t] if c == 0 else b'C%d%d%d' % (lf, t, c)
                 chs.append(dict(name=name, long_name=b'long name %d' % c, rc=rc, units=b'm' if c == 0 else b'', dims=dims))
             if lf == 1 and nch > 1 and rng.random() < 0.5:
                 chs[rng.randrange(1, nch)]['name'] = b'DEPT' if t == 0 else b'TIME'   # the name of an earlier pass's X axis
             chans_all += chs
-            types.append(dict(name=b'FT%d' % t, channels=chs, n=rng.choice([1, 2, 3, 5, 9, 14])))
+            types.append(dict(name=b'FT%d' % t, channels=chs, n=rng.choice([1, 2, 3, 5, 9, 14]), up=rng.random() < 0.4))
         order = []
         for t, ty in enumerate(types):
             order += [t] * ty['n']
@@ -65,22 +66,25 @@ def build_dlis(rng):
                      GL.frame_eflr([dict(name=ty['name'], channels=ty['channels']) for ty in types])]
         counters = [0] * ntypes
         for t in order:
-            r = counters[t]
+            i_ = counters[t]
+            r = types[t]['n'] - 1 - i_ if types[t]['up'] else i_           # an up log: the index decreases from record to record
             counters[t] += 1
             data = b''
             for c, ch in enumerate(types[t]['channels']):
                 for e in range(_prod(ch['dims'])):
                     data += c04.enc(ch['rc'], c04.value_of(ch['rc'], r, c, e))
-            payloads.append(GL.iflr(types[t]['name'], r + 1, data))
+            payloads.append(GL.iflr(types[t]['name'], i_ + 1, data))
             recs.append(dict(kind='I', type=0, enc=False))
         for t, ty in enumerate(types):
             chs = ty['channels']
-            passes.append(dict(key='_%d_%s.las' % (lf, ty['name'].decode()), names=[c['name'].decode() for c in chs], n=ty['n'], Q=2,
-                               xq=list(range(ty['n'])),
-                               kinds=['f' if c['rc'] in (2, 5, 7) else 'i' for c in chs],
-                               f32=[c['rc'] in (2, 5) for c in chs],
-                               cells=[[[c04.value_of(ch['rc'], i, c, e) for e in range(_prod(ch['dims']))] for c, ch in enumerate(chs)]
-                                      for i in range(ty['n'])]))
+            rmap = [ty['n'] - 1 - i if ty['up'] else i for i in range(ty['n'])]
+            xfloat = chs[0]['rc'] in (2, 7)
+            passes.append(dict(key='_%d_%s.las' % (lf, ty['name'].decode()), names=[c['name'].decode() for c in chs], n=ty['n'], Q=2 if xfloat else 1,
+                               xq=[int(c04.value_of(chs[0]['rc'], r_, 0, 0) * (2 if xfloat else 1)) for r_ in rmap],
+                               kinds=['f' if c['rc'] in (2, 5, 6, 7) else 'i' for c in chs],
+                               f32=[c['rc'] in (2, 5, 6) for c in chs],
+                               cells=[[[c04.value_of(ch['rc'], r_, c, e) for e in range(_prod(ch['dims']))] for c, ch in enumerate(chs)]
+                                      for r_ in rmap]))
     for rec, p in zip(recs, payloads):
         rec['len'] = len(p)
     vm = rng.choice([256, 8192])
